@@ -1,6 +1,294 @@
-use crate::{report::Report, Ctx};
-pub fn c12(_c: &Ctx, _r: &mut Report) {}
-pub fn c13(_c: &Ctx, _r: &mut Report) {}
-pub fn c15(_c: &Ctx, _r: &mut Report) {}
-pub fn c16(_c: &Ctx, _r: &mut Report) {}
-pub fn c18(_c: &Ctx, _r: &mut Report) {}
+//! C15 (coefficient arithmetic on complete domains) and C16 (zeroize on drop).
+
+use crate::report::{Report, Tier, Violation};
+use crate::subject::{guard, APIS};
+use crate::Ctx;
+use fips204::verif_hooks as hk;
+use rayon::prelude::*;
+use refmodel::{mod_pm, mod_q, Q};
+use serde_json::json;
+
+pub use crate::checks_d::{c12, c13};
+pub use crate::checks_e::c18;
+
+const G2: [i64; 2] = [(Q - 1) / 88, (Q - 1) / 32];
+/// documented input bound of partial_reduce32 / full_reduce32 / center_mod
+const R32: i64 = 2_143_289_344;
+
+/// Complete enumeration of the integer interval [lo, hi] (inclusive) in parallel chunks. `f` returns a
+/// description of the failure for a failing input. A panic inside a chunk (a library self-check firing)
+/// is localised by re-running the chunk input by input.
+fn sweep(rep: &mut Report, name: &str, lo: i64, hi: i64, exhaustive_for: &str, f: &(dyn Fn(i64) -> Option<String> + Sync)) {
+    let chunk: i64 = 1 << 20;
+    let nchunks = (hi - lo) / chunk + 1;
+    let fails: Vec<(i64, String)> = (0..nchunks)
+        .into_par_iter()
+        .filter_map(|c| {
+            let a = lo + c * chunk;
+            let b = (a + chunk - 1).min(hi);
+            let r = guard(|| {
+                for x in a..=b {
+                    if let Some(w) = f(x) {
+                        return Some((x, w));
+                    }
+                }
+                None
+            });
+            match r {
+                Ok(v) => v,
+                Err(_) => {
+                    for x in a..=b {
+                        match guard(|| f(x)) {
+                            Ok(Some(w)) => return Some((x, w)),
+                            Err(p) => return Some((x, format!("panic: {}", p.0))),
+                            Ok(None) => {}
+                        }
+                    }
+                    None
+                }
+            }
+        })
+        .collect();
+    let n = (hi - lo + 1) as u64;
+    rep.count(name, n);
+    rep.nontrivial_by_construction(n);
+    rep.extra.entry("domains").or_insert(json!({})).as_object_mut().unwrap().insert(name.to_string(), json!({"lo": lo, "hi": hi, "inputs": n, "complete_for": exhaustive_for}));
+    if let Some((x, w)) = fails.iter().min_by_key(|f| f.0.abs()) {
+        rep.violate(Violation {
+            key: format!("c15:{}", name.split('[').next().unwrap_or(name).trim()),
+            summary: format!("{name}: input {x}: {w} ({} failing chunk(s))", fails.len()),
+            replay: json!({"engine":"kernel","kernel":name,"input":x}),
+        });
+    }
+}
+
+pub fn c15(cx: &Ctx, rep: &mut Report) {
+    rep.rule = "complete domains through the verif_hooks wrappers against big-integer definitions: Power2Round / Decompose / HighBits / LowBits / UseHint on every r in Z_q (and the reducing prologue on the documented i32 range) x both gamma2 x h in {0,1}; MakeHint on every r x a z alphabet in both representations its caller supplies; mod+- , partial_reduce32, full_reduce32 on their documented input range; CoeffFromThreeBytes on all 2^24 inputs (x CTEST); CoeffFromHalfByte on 16 x eta x CTEST; partial_reduce64 on every x*2^32 with |x| below its bound; Montgomery reduction on all 2^32 low words x boundary high words; the zeta table. Each input of a complete domain is a distinct case.".into();
+    let t = cx.tier;
+    let full32 = t == Tier::Thorough;
+    let lim32 = if full32 { R32 - 1 } else { 3 * Q };
+
+    // ---- Power2Round on Z_q (hook is vector-shaped: feed 256 consecutive residues per call)
+    sweep(rep, "power2round[r in Z_q, 256 per call]", 0, (Q - 1) / 256, "Z_q", &|blk| {
+        let base = blk * 256;
+        let poly: [i32; 256] = core::array::from_fn(|i| ((base + i as i64).min(Q - 1)) as i32);
+        let (r1, r0) = hk::power2round(&[poly]);
+        for i in 0..256 {
+            let want = refmodel::power2round(i64::from(poly[i]));
+            if (i64::from(r1[0][i]), i64::from(r0[0][i])) != want {
+                return Some(format!("r={} got ({}, {}) want {:?}", poly[i], r1[0][i], r0[0][i], want));
+            }
+        }
+        None
+    });
+
+    for g2 in G2 {
+        let g = g2 as i32;
+        // ---- Decompose / HighBits / LowBits
+        sweep(rep, &format!("decompose+high_bits+low_bits[gamma2={g2}]"), -lim32, lim32, if full32 { "documented i32 input range" } else { "[-3q, 3q] (covers Z_q and both reduction directions)" }, &|r| {
+            let want = refmodel::decompose(g2, r);
+            let got = hk::decompose(g, r as i32);
+            if (i64::from(got.0), i64::from(got.1)) != want {
+                return Some(format!("decompose got {got:?} want {want:?}"));
+            }
+            if i64::from(hk::high_bits(g, r as i32)) != want.0 || i64::from(hk::low_bits(g, r as i32)) != want.1 {
+                return Some("high_bits/low_bits disagree with Decompose".to_string());
+            }
+            None
+        });
+        // ---- UseHint: r in Z_q (and negative representatives) x h
+        sweep(rep, &format!("use_hint[gamma2={g2}, h in {{0,1}}]"), -(Q - 1), Q - 1, "(-q, q) x {0,1}", &|r| {
+            for h in 0..2 {
+                let want = refmodel::use_hint(g2, h, r);
+                let got = i64::from(hk::use_hint(g, h as i32, r as i32));
+                if got != want {
+                    return Some(format!("h={h} got {got} want {want}"));
+                }
+            }
+            None
+        });
+        // ---- MakeHint: every r in (-q, q) x z alphabet, z passed as its caller does (q - ct0 in (0, q])
+        let mut zs: Vec<i64> = (-64..=64).collect();
+        for d in [-1i64, 0, 1] {
+            for m in [g2, 2 * g2, g2 - 1 - 78, g2 - 1 - 196, g2 - 1 - 120] {
+                zs.push(m + d);
+                zs.push(-(m + d));
+            }
+        }
+        zs.extend([Q - 1, -(Q - 1), (Q - 1) / 2, -(Q - 1) / 2]);
+        zs.sort_unstable();
+        zs.dedup();
+        let rlo = if t == Tier::Thorough { -(Q - 1) } else { 0 };
+        let zs2 = zs.clone();
+        sweep(rep, &format!("make_hint[gamma2={g2}, {} z values]", zs.len()), rlo, Q - 1, "r over all residues x z alphabet", &move |r| {
+            for &z in &zs2 {
+                let want = refmodel::make_hint(g2, z, r);
+                let zl = mod_q(z);
+                let zlib = if zl == 0 { Q } else { zl };
+                if hk::make_hint(g, zlib as i32, r as i32) != want {
+                    return Some(format!("z={z} (passed as {zlib}) want {want}"));
+                }
+            }
+            None
+        });
+        // duality: UseHint(MakeHint(z, r), r + z) = HighBits(r) ... (FIPS 204 Lemma), for |z| <= gamma2
+        sweep(rep, &format!("use_hint(make_hint) duality[gamma2={g2}]"), 0, Q - 1, "r in Z_q x z in {+-1, +-gamma2}", &|r| {
+            for z in [1i64, -1, g2, -g2, 17, -4096] {
+                let zlib = if mod_q(z) == 0 { Q } else { mod_q(z) };
+                let h = hk::make_hint(g, zlib as i32, r as i32);
+                let rz = mod_q(r + z);
+                let got = i64::from(hk::use_hint(g, i32::from(h), r as i32));
+                // UseHint(h, r) with h = MakeHint(z, r) recovers HighBits(r + z)
+                if got != refmodel::high_bits(g2, rz) {
+                    return Some(format!("z={z}: UseHint(MakeHint(z,r), r) = {got}, HighBits(r+z) = {}", refmodel::high_bits(g2, rz)));
+                }
+            }
+            None
+        });
+    }
+
+    // ---- mod+-, reductions
+    sweep(rep, "center_mod", -lim32, lim32, if full32 { "documented range |a| < 2143289344" } else { "[-3q, 3q]" }, &|a| {
+        let got = i64::from(hk::center_mod(a as i32));
+        let want = mod_pm(a, Q);
+        (got != want).then(|| format!("got {got} want {want}"))
+    });
+    // the documented range is completely enumerable for the two 32-bit reductions (cheap)
+    sweep(rep, "partial_reduce32", -(R32 - 1), R32 - 1, "documented range |a| < 2143289344", &|a| {
+        let got = i64::from(hk::partial_reduce32(a as i32));
+        ((got - a) % Q != 0 || got.abs() >= Q).then(|| format!("got {got}: not congruent or outside (-q, q)"))
+    });
+    sweep(rep, "full_reduce32", -(R32 - 1), R32 - 1, "documented range |a| < 2143289344", &|a| {
+        let got = i64::from(hk::full_reduce32(a as i32));
+        (got != mod_q(a)).then(|| format!("got {got} want {}", mod_q(a)))
+    });
+    // partial_reduce64: the only shape its caller (to_mont) supplies is x * 2^32
+    let b64: i64 = 67_058_539;
+    sweep(rep, "partial_reduce64[x*2^32]", -(b64 - 1), b64 - 1, "every x*2^32 with |x| < 67058539", &|x| {
+        let a = x << 32;
+        let got = i64::from(hk::partial_reduce64(a));
+        let ok = (i128::from(got) - i128::from(a)).rem_euclid(i128::from(Q)) == 0 && got.abs() < 2 * Q;
+        (!ok).then(|| format!("got {got}: not congruent to x*2^32 or outside (-2q, 2q)"))
+    });
+
+    // ---- CoeffFromThreeBytes / CoeffFromHalfByte
+    sweep(rep, "coeff_from_three_bytes[CTEST=false]", 0, (1 << 24) - 1, "all 2^24 inputs", &|x| {
+        let b = [x as u8, (x >> 8) as u8, (x >> 16) as u8];
+        let got = hk::coeff_from_three_bytes::<false>(b).ok();
+        let want = refmodel::coeff_from_three_bytes(b[0], b[1], b[2]);
+        (got != want).then(|| format!("bytes {b:?} got {got:?} want {want:?}"))
+    });
+    sweep(rep, "coeff_from_three_bytes[CTEST=true]", 0, (1 << 24) - 1, "all 2^24 inputs", &|x| {
+        let b = [x as u8, (x >> 8) as u8, (x >> 16) as u8];
+        let got = hk::coeff_from_three_bytes::<true>(b).ok();
+        // test mode: bit 6 of b2 is masked too, so rejection never happens
+        let want = refmodel::coeff_from_three_bytes(b[0], b[1], b[2] & 0x3F);
+        (got != want || got.is_none()).then(|| format!("bytes {b:?} got {got:?} want {want:?}"))
+    });
+    sweep(rep, "coeff_from_half_byte[16 x eta x CTEST]", 0, 63, "complete", &|x| {
+        let b = (x & 15) as u8;
+        let eta = if x & 16 == 0 { 2 } else { 4 };
+        let ct = x & 32 != 0;
+        let got = if ct { hk::coeff_from_half_byte::<true>(eta as i32, b).ok() } else { hk::coeff_from_half_byte::<false>(eta as i32, b).ok() };
+        let want = refmodel::coeff_from_half_byte(eta, if ct { b & 7 } else { b });
+        (got != want).then(|| format!("eta={eta} b={b} ctest={ct} got {got:?} want {want:?}"))
+    });
+
+    // ---- Montgomery reduction: all 2^32 low words x boundary high words
+    let hi_min: i64 = -4_190_209; // floor(-2^31 q / 2^32)
+    let hi_max: i64 = 4_190_208;
+    let mut highs: Vec<i64> = match t {
+        Tier::Quick => vec![hi_min, -1, 0, hi_max],
+        Tier::Thorough => vec![hi_min, hi_min + 1, -2, -1, 0, 1, hi_max - 1, hi_max],
+    };
+    if t == Tier::Thorough {
+        for i in 0..24 {
+            highs.push(hi_min + 2 + i * ((hi_max - hi_min - 4) / 23));
+        }
+    }
+    highs.sort_unstable();
+    highs.dedup();
+    let a_min: i64 = -17_996_808_479_301_632;
+    let a_max: i64 = 17_996_808_470_921_215;
+    for &hi in &highs {
+        sweep(rep, &format!("mont_reduce[high word {hi}, all 2^32 low words]"), 0, (1i64 << 32) - 1, "all low words for this high word (inside the documented input range)", &|lo| {
+            let a = (hi << 32) + lo;
+            if a < a_min || a > a_max {
+                return None; // outside the documented precondition
+            }
+            let r = i64::from(hk::mont_reduce(a));
+            let ok = ((r << 32) - a) % Q == 0 && r.abs() < Q;
+            (!ok).then(|| format!("a={a} got {r}: r*2^32 not congruent to a or |r| >= q"))
+        });
+    }
+    // products of the shapes callers supply: zeta * coefficient, on a lattice of both factors
+    sweep(rep, "mont_reduce[zeta_i * v lattice]", 0, 255, "256 table entries x 2^16-stride lattice of v in (-2^31, 2^31)", &|i| {
+        let z = i64::from(hk::zeta_table_mont()[i as usize]);
+        let mut v: i64 = -(1 << 31) + 1;
+        while v < (1 << 31) {
+            let a = z * v;
+            if a >= a_min && a <= a_max {
+                let r = i64::from(hk::mont_reduce(a));
+                if ((i128::from(r) << 32) - i128::from(a)).rem_euclid(i128::from(Q)) != 0 || r.abs() >= Q {
+                    return Some(format!("zeta[{i}]*{v}"));
+                }
+            }
+            v += 65_521;
+        }
+        None
+    });
+    // ---- zeta table
+    sweep(rep, "zeta_table_mont", 0, 255, "all 256 entries", &|i| {
+        let want = (i128::from(refmodel::zetas()[i as usize]) << 32).rem_euclid(i128::from(Q)) as i64;
+        let got = i64::from(hk::zeta_table_mont()[i as usize]);
+        (mod_q(got) != want).then(|| format!("entry {i}: got {got} want {want}"))
+    });
+    rep.sample(json!({"kernel":"decompose","gamma2":95232,"r":8285185,"standard":"(0, -95232) [corner r+ - r0 = q-1]"}));
+    rep.sample(json!({"kernel":"mont_reduce","high_words":highs,"low_words":"all 2^32"}));
+    if t == Tier::Quick {
+        rep.caps_hit.push("quick tier: decompose/center_mod prologue on [-3q,3q] instead of the full i32 range; mont_reduce on 4 instead of 32 high words".into());
+    }
+}
+
+// ------------------------------------------------------------------------------------------------ C16
+
+pub fn c16(cx: &Ctx, rep: &mut Report) {
+    rep.rule = "sets x {PrivateKey, PublicKey} x provenance {keygen_from_seed, try_keygen_with_rng, try_from_bytes, get_public_key, clone}: the object is placed in heap storage that outlives it, checked to hold non-zero data, destroyed in place with its own destructor, then EVERY byte of the storage is read (volatile) and must be zero. Each (set, type, provenance) is a distinct non-trivial case (no test inspects memory after drop).".into();
+    let xi = crate::alpha::counter32(cx.seed, "seed", 9);
+    for api in APIS {
+        for kind in ["sk", "pk"] {
+            let provs: Vec<&str> = if kind == "sk" { vec!["keygen_from_seed", "try_keygen_with_rng", "try_from_bytes", "clone"] } else { vec!["keygen_from_seed", "try_keygen_with_rng", "try_from_bytes", "get_public_key", "clone"] };
+            for prov in provs {
+                rep.count(&format!("{kind}:{prov}"), 1);
+                rep.nontrivial_by_construction(1);
+                let replay = json!({"engine":"zeroize","set":api.p.id,"kind":kind,"provenance":prov,"seed":refmodel::hex(&xi)});
+                match (api.zeroize_probe)(kind, prov, &xi) {
+                    Err(e) => rep.machinery(format!("zeroize probe failed to build the object ({kind}/{prov}): {e}")),
+                    Ok((n, before, after)) => {
+                        *rep.extra.entry("bytes_inspected").or_insert(json!(0)) = json!(rep.extra.get("bytes_inspected").and_then(|v| v.as_u64()).unwrap_or(0) + n as u64);
+                        if before < n / 4 {
+                            rep.machinery(format!("object {kind}/{prov} holds only {before} non-zero bytes of {n} before drop (vacuous)"));
+                        }
+                        if after.is_empty() {
+                            rep.outcome("all_bytes_zero_after_drop", 1);
+                        } else {
+                            rep.outcome("residue_after_drop", 1);
+                            let field = if kind == "sk" {
+                                match after[0] { 0..=31 => "rho", 32..=63 => "K", 64..=127 => "tr", _ => "NTT-domain secret polynomials" }
+                            } else {
+                                match after[0] { 0..=31 => "rho", 32..=95 => "tr", _ => "t1 precompute" }
+                            };
+                            rep.violate(Violation {
+                                key: format!("c16:{kind}:residue"),
+                                summary: format!("ML-DSA-{} {} obtained by {prov}: after drop, byte offsets {after:?}.. of the {n}-byte object are non-zero (field: {field})", api.p.id, if kind == "sk" { "PrivateKey" } else { "PublicKey" }),
+                                replay,
+                            });
+                        }
+                    }
+                }
+            }
+        }
+        rep.sample(json!({"set": api.p.id, "objects": 9, "sk_bytes": api.sk_struct_size, "pk_bytes": api.pk_struct_size}));
+    }
+    rep.assumptions.push("the inspection reads freed-in-place storage that is still owned by the harness (Box<ManuallyDrop<T>>); moves of a key (e.g. into into_bytes(self)) leave copies the language does not let a destructor reach - not claimed".into());
+}
